@@ -5,7 +5,7 @@ HERE = os.path.dirname(os.path.abspath(__file__))
 sys.path.insert(0, os.path.join(os.path.dirname(HERE), "mirsym"))
 sys.path.insert(0, os.path.join(os.path.dirname(HERE), "mirsym", "harness"))
 
-MODULES = ["h_vmops", "h_types", "h_asm", "h_bytecode", "h_graph", "h_vmctl", "h_check", "h_vmio", "h_compute", "h_lock", "h_hash", "h_levels", "h_crypto"]
+MODULES = ["h_vmops", "h_types", "h_asm", "h_bytecode", "h_graph", "h_vmctl", "h_check", "h_vmio", "h_compute", "h_lock", "h_hash", "h_levels", "h_crypto", "h_par"]
 
 
 def select(pid, tier):
@@ -18,5 +18,5 @@ def select(pid, tier):
         for name, hd in m.HARNESSES.items():
             if pid in hd["props"] and tier in hd.get("tiers", ("quick", "thorough")):
                 out.append((mod, name, dict(crates=hd["crates"], bound=hd.get("bound", {}).get(tier, hd.get("bound_text", "")),
-                                            timeout=hd.get("timeout", {}))))
+                                            timeout=hd.get("timeout", {}), heavy=bool(hd.get("heavy")))))
     return out
